@@ -11,7 +11,9 @@
 (***************************************************************************)
 EXTENDS TheoSem
 
-Tr == ndJsonDeserialize(IOEnv.TRACE)
+\* read once (register 10), not on every reference to Tr; validation runs with one worker
+ASSUME TLCSet(10, ndJsonDeserialize(IOEnv.TRACE))
+Tr == TLCGet(10)
 
 VARIABLES l,       \* next event to explain
           every,   \* this execution logs every stop (C07) / only the end (C01 on free layouts)
@@ -31,8 +33,8 @@ ViewOK(ev) ==
 
 TInit == /\ l = 1 /\ IsEvent("load") /\ SemInit(Tr[1].a) /\ every = Tr[1].every /\ lim = Tr[1].lim
 TFirst == /\ l = 1 /\ l' = 2 /\ UNCHANGED <<svars, every, lim>>
-TLoad == /\ l > 1 /\ IsEvent("load")
-         /\ a' = Ev.a /\ frames' = <<Frame0(0, EmptyEnv, "")>> /\ halted' = FALSE /\ over' = FALSE /\ n' = 0
+TLoad == /\ l > 1 /\ IsEvent("load") /\ (l > 2 => Tr[l - 1].e \in {"final", "timeout"})
+         /\ a' = Ev.a /\ code' = MkCode(Ev.a) /\ labs' = MkLabs(Ev.a) /\ frames' = <<Frame0(0, EmptyEnv, "")>> /\ halted' = FALSE /\ over' = FALSE /\ n' = 0
          /\ every' = Ev.every /\ lim' = Ev.lim /\ l' = l + 1
 \* unlogged step: anything that is not a line event (every mode), any step (final-only mode)
 TSilent == /\ l > 1 /\ ~Done /\ n < lim /\ (every => Cur.op # "line")
@@ -60,7 +62,8 @@ TSpec == TInit /\ [][TNext]_tvars
 NotAccepted == l <= Len(Tr)
 \* debugging aid: stop at event DEBUGL and print the behaviour so far
 DebugStop == l < atoi(IOEnv.DEBUGL)
-Progress == TLCSet(1, l) /\ (over => TLCSet(2, l))
-ReportProgress == PrintT(<<"maxl", TLCGet(1), "of", Len(Tr), "over", TLCGet(2)>>)
-ASSUME TLCSet(2, 0)
+\* acceptance without an error trace: register 1 holds the furthest event reached (one worker)
+ASSUME TLCSet(1, 0) /\ TLCSet(2, 0)
+Progress == TLCSet(1, IF l > TLCGet(1) THEN l ELSE TLCGet(1)) /\ (over => TLCSet(2, l))
+Accepted == PrintT(<<"maxl", TLCGet(1), "of", Len(Tr), "over", TLCGet(2)>>) /\ TLCGet(1) > Len(Tr)
 =============================================================================
